@@ -137,6 +137,43 @@ func (fx *Fx) autoCandidateTerms(li *LoopInfo, pre, cur map[*ssa.Phi]Val) map[st
 			lens = append(lens, sl{"cur:" + p.Comment, cur[p].L[2]})
 		}
 	}
+	// conserved quantity: a slice that is advanced by a constant c per iteration (d = d[c:]) together with a
+	// counter: len(d) + c*i keeps its entry value
+	for _, p := range headerPhis(h) {
+		if _, ok := p.Type().Underlying().(*types.Slice); !ok || len(cur[p].L) != 4 {
+			continue
+		}
+		var c int64
+		for _, e := range p.Edges {
+			if sl, ok := e.(*ssa.Slice); ok && sl.X == ssa.Value(p) && sl.High == nil && sl.Low != nil {
+				if k, ok := sl.Low.(*ssa.Const); ok && k.Value != nil {
+					c = k.Int64()
+				}
+			}
+		}
+		if c <= 0 {
+			continue
+		}
+		if c > 1 {
+			// the length keeps its residue modulo the step
+			out[fmt.Sprintf("len(%s)%%%d=entry", p.Comment, c)] = Eq(
+				BVOp("bvurem", cur[p].L[2], BVConstI(c, 64)), BVOp("bvurem", pre[p].L[2], BVConstI(c, 64)))
+		}
+		for _, q := range headerPhis(h) {
+			cv, pv := cur[q], pre[q]
+			if len(cv.L) != 1 || cv.L[0].S.K != SBV || cv.L[0].S.W != 64 || !isInteger(q.Type()) {
+				continue
+			}
+			qn := q.Comment
+			if qn == "" {
+				qn = q.Name()
+			}
+			cc := BVConstI(c, 64)
+			out[fmt.Sprintf("len(%s)+%d*%s=entry", p.Comment, c, qn)] = Eq(
+				BVOp("bvadd", cur[p].L[2], BVOp("bvmul", cc, cv.L[0])),
+				BVOp("bvadd", pre[p].L[2], BVOp("bvmul", cc, pv.L[0])))
+		}
+	}
 	for _, p := range headerPhis(h) {
 		cv := cur[p]
 		if len(cv.L) != 1 || cv.L[0].S.K != SBV || cv.L[0].S.W != 64 || !isInteger(p.Type()) {
@@ -185,6 +222,7 @@ func (fx *Fx) autoLoopEntry(st *State, li *LoopInfo) *State {
 		}
 	}
 	var writes *writeSet
+	termLabel := ""
 	for iter := 0; iter < 8; iter++ {
 		dry := st.Clone()
 		nA := len(fx.Assume)
@@ -212,6 +250,9 @@ func (fx *Fx) autoLoopEntry(st *State, li *LoopInfo) *State {
 				}
 			}
 		}
+		if !dropped {
+			termLabel = fx.autoVariant(li, pre, hv, arrivals)
+		}
 		fx.Assume = fx.Assume[:nA]
 		if !dropped {
 			break
@@ -230,7 +271,122 @@ func (fx *Fx) autoLoopEntry(st *State, li *LoopInfo) *State {
 		}
 	}
 	ann.Surviving = kept
+	// termination: some measure from the template set strictly decreases (and is non-negative) on every back edge
+	if termLabel == "" {
+		fx.oblige(st, "variant", fmt.Sprintf("loop%d", li.Ordinal), False(), li.Header.Instrs[0].Pos())
+	} else {
+		fx.Variants[fmt.Sprintf("%s loop %d", fnName(li.Header.Parent()), li.Ordinal)] = termLabel
+	}
 	fx.AutoLoops[fmt.Sprintf("%s loop %d", fnName(li.Header.Parent()), li.Ordinal)] = len(kept)
 	fx.loopCtxs[li] = &loopCtx{vars: map[string]Val{}, head: map[string]Val{}}
 	return st
+}
+
+// autoVariant looks for a termination measure of an unannotated loop among: the length of a slice loop variable,
+// an integer loop variable itself, and (bound - integer loop variable) for the loop-invariant operands of the
+// comparisons in the loop header.  A measure m is accepted when on every back edge  m(next) < m(cur)  and
+// m(cur) >= 0  (signed 64-bit order: well-founded).  Returns the label of the measure, "" when none is found.
+func (fx *Fx) autoVariant(li *LoopInfo, pre, hv map[*ssa.Phi]Val, arrivals []*State) string {
+	if len(arrivals) == 0 {
+		return "no back edge is reachable"
+	}
+	type meas struct {
+		label string
+		f     func(vals map[*ssa.Phi]Val) *Term
+	}
+	var ms []meas
+	phis := headerPhis(li.Header)
+	w64 := func(t *Term, signed bool) *Term {
+		if t.S.W == 64 {
+			return t
+		}
+		if t.S.W > 64 {
+			return nil
+		}
+		if signed {
+			return SignExt(t, 64)
+		}
+		return ZeroExt(t, 64)
+	}
+	for _, p := range phis {
+		p := p
+		name := p.Comment
+		if name == "" {
+			name = p.Name()
+		}
+		switch u := p.Type().Underlying().(type) {
+		case *types.Slice:
+			ms = append(ms, meas{"len(" + name + ")", func(v map[*ssa.Phi]Val) *Term { return v[p].L[2] }})
+		case *types.Basic:
+			if u.Info()&types.IsInteger == 0 || len(hv[p].L) != 1 {
+				continue
+			}
+			if u.Info()&types.IsString != 0 {
+				continue
+			}
+			signed := isSigned(p.Type())
+			ms = append(ms, meas{name, func(v map[*ssa.Phi]Val) *Term { return w64(v[p].L[0], signed) }})
+			// bounds: loop-invariant operands of comparisons in the header
+			for _, ins := range li.Header.Instrs {
+				b, ok := ins.(*ssa.BinOp)
+				if !ok {
+					continue
+				}
+				switch b.Op {
+				case token.LSS, token.LEQ, token.GTR, token.GEQ, token.NEQ:
+				default:
+					continue
+				}
+				for _, opnd := range []ssa.Value{b.X, b.Y} {
+					if in, ok := opnd.(ssa.Instruction); ok && li.Body[in.Block()] {
+						continue
+					}
+					var q *Term
+					if k, ok := opnd.(*ssa.Const); ok {
+						if k.Value == nil || !isInteger(k.Type()) {
+							continue
+						}
+						q = BVConstI(k.Int64(), 64)
+					} else if v, ok := fx.curFrameVals[opnd]; ok && len(v.L) == 1 && v.L[0].S.K == SBV {
+						q = w64(v.L[0], isSigned(opnd.Type()))
+					}
+					if q == nil {
+						continue
+					}
+					qq := q
+					ms = append(ms, meas{fmt.Sprintf("%s-%s", opnd.Name(), name), func(v map[*ssa.Phi]Val) *Term {
+						x := w64(v[p].L[0], signed)
+						if x == nil {
+							return nil
+						}
+						return BVOp("bvsub", qq, x)
+					}})
+				}
+			}
+		}
+	}
+	for _, m := range ms {
+		cur := m.f(hv)
+		if cur == nil {
+			continue
+		}
+		ok := true
+		for _, a := range arrivals {
+			nv := map[*ssa.Phi]Val{}
+			for _, p := range phis {
+				v := a.Top().Vals[p]
+				v.T = p.Type()
+				nv[p] = v
+			}
+			nx := m.f(nv)
+			if nx == nil || !fx.provable(a, And(BVOp("bvslt", nx, cur), BVOp("bvsle", BVConst(0, 64), cur))) {
+				ok = false
+				break
+			}
+		}
+		if ok {
+			return m.label
+		}
+	}
+	return ""
 }
